@@ -232,6 +232,11 @@ class Harness(object):
         if k == 'server_fault':
             self.the_fault = Fault('Server.Custom', 'server fault')
             raise self.the_fault
+        if k in ('redirect_302', 'redirect_301', 'redirect_303'):
+            from spyne.server.http import HttpRedirect
+            from spyne.const import http as H
+            raise HttpRedirect(ctx, 'http://elsewhere.example/path?x=1&y=2', code={
+                'redirect_302': H.HTTP_302, 'redirect_301': H.HTTP_301, 'redirect_303': H.HTTP_303}[k])
         if k == 'non_fault_typeerror':
             self.the_exception = TypeError("unsupported operand " + SECRET)
         elif k == 'non_fault_valueerror':
